@@ -315,7 +315,8 @@ def ccsds_generator(
     elif isinstance(binary_data, bytes):
         read_buffer = binary_data
         total_length_bytes = len(read_buffer)
-        read_bytes_from_source = None  # No data to read, we've filled the read_buffer already
+        def read_bytes_from_source(_):
+            return b""  # No data to read, we've filled the read_buffer already
         logger.info(f"Creating packet generator from a bytes object. Total length is {total_length_bytes} bytes")
     elif isinstance(binary_data, io.TextIOWrapper):
         raise OSError("Packet data file opened in TextIO mode. You must open packet data in binary mode.")
@@ -346,6 +347,8 @@ def ccsds_generator(
             if not result:  # If there is verifiably no more data to add, break
                 break
             read_buffer += result
+        if len(read_buffer) - current_pos < skip_header_bytes + RawPacketData.HEADER_LENGTH_BYTES:
+            break  # Source exhausted without a complete header
         # Skip the header bytes
         current_pos += skip_header_bytes
         header_bytes = read_buffer[current_pos:current_pos + RawPacketData.HEADER_LENGTH_BYTES]
@@ -362,6 +365,9 @@ def ccsds_generator(
             if not result:  # If there is verifiably no more data to add, break
                 break
             read_buffer += result
+
+        if len(read_buffer) - current_pos < n_bytes_packet:
+            break  # Source exhausted in the middle of a packet
 
         # Consider it a counted packet once we've verified that we have read the full packet and parsed the header
         # Update the number of packets and bytes parsed
